@@ -150,16 +150,14 @@ def _observe(case, run_seconds=20):
             trace.append({'ev': 'log', 'text': A.cps(text)})
 
     host = {'probe': probe, 'hostFail': host_fail}
+
+    def real_value(v):
+        if v.get('t') == 'fn':
+            return host[v['name']] if v.get('f') == 'host' else SCRIPT_FUNCTIONS[v['name']]
+        return A.gval(v, as_float=case.get('floats', True))
     g = {}
     for gv in case['globals']:
-        v = gv['val']
-        if v.get('t') == 'fn':
-            if v.get('f') == 'host':
-                g[gv['name']] = host[v['name']]
-            else:
-                g[gv['name']] = SCRIPT_FUNCTIONS[v['name']]
-        else:
-            g[gv['name']] = A.gval(v, as_float=case.get('floats', True))
+        g[gv['name']] = real_value(gv['val'])
     for name, v in (case.get('raw_globals') or {}).items():
         g[name] = v
     g0 = g
@@ -215,7 +213,10 @@ def _observe(case, run_seconds=20):
             if case['kind'] == 'script':
                 r = execute_script(real, opts)
             else:
-                r = evaluate_expression(real, opts, None, case.get('bi', True))
+                lcl = None
+                if case.get('hasLocals'):
+                    lcl = {x['name']: real_value(x['val']) for x in case.get('locals', [])}
+                r = evaluate_expression(real, opts, lcl, case.get('bi', True))
             ret = A.aval(r)
             if ret['t'] == 'alien' or _has_alien(ret):
                 status = 'host:alien-value:' + str(type(r).__name__)
@@ -248,6 +249,8 @@ def _observe(case, run_seconds=20):
     case.setdefault('bi', True)
     case.setdefault('off', 0)
     case.setdefault('containOnly', False)
+    case.setdefault('hasLocals', False)
+    case.setdefault('locals', [])
     case.setdefault('checkGlobals', case['kind'] == 'script')
     case.setdefault('expr', A.NULLVAR)
     case.setdefault('model', [])
